@@ -336,6 +336,8 @@ def replay(ctx, case):
     ctx.distinct(2)
     for k in REQUIRED["any"] + ["yield_callbacks", "distinct_interleavings"]:
         ctx.counters.setdefault(k, 0)
+    if "part" in ctx.shard and case.get("kind") not in ("conc", "culture"):
+        run(ctx, ctx.shard); return
     if case.get("kind") in ("conc", "culture"):
         # schedule-dependent: re-execute trials with the shard's seeded generator and report how often it recurs
         run_conc(ctx, 20, case.get("inject", True))
